@@ -450,6 +450,10 @@ class HttpParser:
             raise InvalidChunkSize(chunk_size)
 
         if chunk_size == 0:
+            if rest_chunk[:2] != b'\r\n' and rest_chunk.find(b'\r\n\r\n') < 0:
+                # the CRLF ending the message (or the trailer part) is not
+                # there yet; it belongs to this message, not to the next one
+                return None, None
             self._parse_trailers(rest_chunk)
             return 0, None
         return chunk_size, rest_chunk
